@@ -332,3 +332,76 @@ Proof.
   - intros k w Hin. apply in_map_iff in Hin. destruct Hin as [l [<- _]]. destruct (Z.eqb l 1); apply Qc_is_canon; vm_compute; reflexivity.
   - vm_compute in E. inversion E; subst. vm_compute. reflexivity.
 Qed.
+
+(* ==== third part: real analysis (Coquelicot; Proofs/UQReal.v). These theorems depend on the axioms of the standard library's
+   real numbers (ClassicalDedekindReals.sig_not_dec, sig_forall_dec, FunctionalExtensionality.functional_extensionality_dep) and on
+   nothing else; everything above stays closed under the global context. ==== *)
+From Coq Require Import Reals Lra.
+From Coquelicot Require Import Coquelicot.
+From SG Require Import Proofs.FunPolyReal Proofs.UQReal.
+Local Open Scope R_scope.
+
+(* ---- the moment hypotheses of the weight theorems hold for EVERY density that is continuous and non-negative on the interval
+   (monotonicity of the integral): m0 = int f >= 0, x1*m0 <= m1 = int x f(x) <= x2*m0 ---- *)
+Theorem C15_moment_hypotheses_hold_for_every_density : forall (f : R -> R) (x1 x2 : R),
+  x1 <= x2 -> (forall z, x1 <= z <= x2 -> continuous f z) -> (forall z, x1 <= z <= x2 -> 0 <= f z) ->
+  0 <= mom0 f x1 x2 /\ x1 * mom0 f x1 x2 <= mom1 f x1 x2 /\ mom1 f x1 x2 <= x2 * mom0 f x1 x2.
+Proof. exact moment_hypotheses. Qed.
+(* ---- the composite weights over R are the formula of the Qc model (embedding Qc -> R commutes with accum) ---- *)
+Theorem C15_accum_real : forall c ivs, (forall iv, In iv ivs -> finite_ival iv) ->
+  map QcR (accum c ivs) = accumR (QcR c) (map toR ivs).
+Proof. exact accum_real. Qed.
+(* ---- every density continuous and non-negative on [a,b], every grid a <= x_0 < ... < x_n <= b, tail masses tlo, thi >= 0 (mass
+   left of x_0 / right of x_n; the grid points at -inf / +inf carry weight 0): the weights are non-negative and sum to
+   tlo + int_{x_0}^{x_n} f + thi ---- *)
+Theorem C15_wtrap_density_probability : forall (f : R -> R) (a b : R),
+  (forall z, a <= z <= b -> continuous f z) -> (forall z, a <= z <= b -> 0 <= f z) ->
+  forall x tlo thi, incR x -> List.Forall (fun t => a <= t <= b) x -> x <> [] -> 0 <= tlo -> 0 <= thi ->
+  (forall w, In w (weightsR tlo thi (density_ivals f x)) -> 0 <= w) /\
+  sumR (weightsR tlo thi (density_ivals f x)) = tlo + RInt f (firstR x) (lastR x) + thi.
+Proof. exact density_weights_probability. Qed.
+(* ---- the normal distribution N(mu, sigma^2): hypotheses and weights (no longer assumed) ---- *)
+Theorem C15_normal_moment_hypotheses : forall mu sigma x1 x2,
+  0 < sigma -> x1 <= x2 ->
+  0 <= mom0 (pdfN mu sigma) x1 x2 /\ x1 * mom0 (pdfN mu sigma) x1 x2 <= mom1 (pdfN mu sigma) x1 x2
+  /\ mom1 (pdfN mu sigma) x1 x2 <= x2 * mom0 (pdfN mu sigma) x1 x2.
+Proof. exact normal_moment_hypotheses. Qed.
+Theorem C15_wtrap_normal_probability : forall mu sigma x tlo thi,
+  0 < sigma -> incR x -> x <> [] -> 0 <= tlo -> 0 <= thi ->
+  (forall w, In w (weightsR tlo thi (density_ivals (pdfN mu sigma) x)) -> 0 <= w) /\
+  sumR (weightsR tlo thi (density_ivals (pdfN mu sigma) x)) = tlo + RInt (pdfN mu sigma) (firstR x) (lastR x) + thi.
+Proof. exact normal_weights_probability. Qed.
+(* ---- the weighted midpoint: for every density continuous on R and positive on the open interval there is exactly one point
+   strictly inside that splits the interval into two parts of equal probability (intermediate value theorem + strict monotonicity of
+   the cumulative integral); instance: the normal distribution ---- *)
+Theorem C15_midpoint_exists_unique : forall (f : R -> R), (forall z, continuous f z) ->
+  forall a b, a < b -> (forall z, a < z < b -> 0 < f z) ->
+  exists m, (a < m < b /\ RInt f a m = RInt f m b) /\ forall m', a < m' < b /\ RInt f a m' = RInt f m' b -> m' = m.
+Proof. exact midpoint_exists_unique. Qed.
+Theorem C15_normal_midpoint : forall mu sigma a b,
+  0 < sigma -> a < b ->
+  exists m, (a < m < b /\ RInt (pdfN mu sigma) a m = RInt (pdfN mu sigma) m b) /\
+            forall m', a < m' < b /\ RInt (pdfN mu sigma) a m' = RInt (pdfN mu sigma) m' b -> m' = m.
+Proof. exact normal_midpoint. Qed.
+Theorem C15_uniform_midpoint_unique : forall A B a b,
+  A < B -> a < b ->
+  exists m, (a < m < b /\ RInt (fun _ => / (B - A)) a m = RInt (fun _ => / (B - A)) m b) /\
+            forall m', a < m' < b /\ RInt (fun _ => / (B - A)) a m' = RInt (fun _ => / (B - A)) m' b -> m' = m.
+Proof. exact uniform_midpoint. Qed.
+Print Assumptions C15_uniform_midpoint_unique.
+Print Assumptions C15_moment_hypotheses_hold_for_every_density.
+Print Assumptions C15_accum_real.
+Print Assumptions C15_wtrap_density_probability.
+Print Assumptions C15_normal_moment_hypotheses.
+Print Assumptions C15_wtrap_normal_probability.
+Print Assumptions C15_midpoint_exists_unique.
+Print Assumptions C15_normal_midpoint.
+
+(* non-vacuity: the standard normal on the grid -1 < 0 < 2 with tails 1/10, 1/20; a positive density value *)
+Example C15_nonvacuous_normal :
+  incR [-1; 0; 2] /\ [-1; 0; 2] <> (@nil R) /\ 0 < pdfN 0 1 0 /\
+  length (weightsR (1 / 10) (1 / 20) (density_ivals (pdfN 0 1) [-1; 0; 2])) = 3%nat /\
+  (forall iv, In iv ivs3 -> finite_ival iv -> True).
+Proof.
+  split; [simpl; lra|]. split; [discriminate|]. split; [apply pdfN_pos; lra|]. split; [reflexivity|]. intros; exact I.
+Qed.
